@@ -182,11 +182,7 @@ def run_cum(case):
     kw, ax = _axis_kw(case["axis_form"], spec, case["ax"])
     a = core.build(spec)
     vals = core.spec_values(spec)
-    if spec.get("dtype"):
-        da = core.env.import_dimarray()
-        vals = vals.astype(spec["dtype"])
-        a = da.DimArray(vals.copy(), axes=[x.copy() for x in a.axes])
-    snap = core.snapshot(a)
+    snap = core.snapshot(a)       # (core.spec_values applies spec["dtype"]: the history-laden build has the narrow type too)
     what = "%s(%s) dims=%s labels=%s vals=%s dtype=%s" % (op, kw, spec["dims"], spec["labels"], spec["vals"], vals.dtype)
     sig = {"op": op}
     res = lib(lambda: getattr(a, op)(**kw), what=what, sig=sig)
